@@ -548,7 +548,14 @@ def build_harness(run, release=False):
     return os.path.join(TARGET, "release" if release else "debug", "jrharness"), ""
 
 
-def _run_shard(binary, sub, lines, env, timeout):
+def _limit_mem(nbytes):
+    def f():
+        import resource
+        resource.setrlimit(resource.RLIMIT_AS, (nbytes, nbytes))
+    return f
+
+
+def _run_shard(binary, sub, lines, env, timeout, mem_limit=None):
     """Run one shard; survives a dying harness process by restarting after the fatal line."""
     outs = []
     start = 0
@@ -556,7 +563,8 @@ def _run_shard(binary, sub, lines, env, timeout):
         data = "\n".join(lines[start:]) + "\n"
         try:
             p = subprocess.run([binary, sub], input=data, stdout=subprocess.PIPE, stderr=subprocess.PIPE,
-                               text=True, env=env, timeout=timeout)
+                               text=True, env=env, timeout=timeout,
+                               preexec_fn=_limit_mem(mem_limit) if mem_limit else None)
             got = [ln for ln in p.stdout.split("\n") if ln.strip()]
             dead = p.returncode != 0
             tail = p.stderr[-300:]
@@ -584,7 +592,7 @@ def _run_shard(binary, sub, lines, env, timeout):
     return outs[:len(lines)]
 
 
-def run_harness(binary, sub, requests, env_extra=None, timeout=900, shards=None):
+def run_harness(binary, sub, requests, env_extra=None, timeout=900, shards=None, mem_limit=None):
     """Send JSON requests to `jrharness <sub>`, sharded; returns answers in order."""
     from concurrent.futures import ThreadPoolExecutor
     if not requests:
@@ -599,12 +607,32 @@ def run_harness(binary, sub, requests, env_extra=None, timeout=900, shards=None)
         buckets[i % n].append((i, json.dumps(r, ensure_ascii=False)))
     results = [None] * len(requests)
     with ThreadPoolExecutor(max_workers=n) as ex:
-        futs = [(b, ex.submit(_run_shard, binary, sub, [x[1] for x in b], env, timeout)) for b in buckets if b]
+        futs = [(b, ex.submit(_run_shard, binary, sub, [x[1] for x in b], env, timeout, mem_limit))
+                for b in buckets if b]
         for b, f in futs:
             outs = f.result()
             for (i, _), o in zip(b, outs):
                 results[i] = o
     return results
+
+
+REPO_TARGET = os.path.join(CACHE, "target-repo")
+
+
+def build_repo_bins(run, packages=("jrsonnet", "jrsonnet-fmt", "jrsonnet-deps", "libjsonnet")):
+    """build /repo's own executables / cdylib from the working tree into .cache/target-repo"""
+    cmd = ["cargo", "build", "--offline", "--quiet", "--manifest-path", os.path.join(REPO, "Cargo.toml"),
+           "--target-dir", REPO_TARGET]
+    for p in packages:
+        cmd += ["-p", p]
+    env = cargo_env()
+    env["CARGO_PROFILE_DEV_DEBUG"] = "0"
+    t = time.time()
+    p = subprocess.run(cmd, env=env, stdout=subprocess.PIPE, stderr=subprocess.STDOUT, text=True)
+    if p.returncode != 0:
+        return None, p.stdout[-3000:]
+    run.log(f"repo binaries built in {time.time() - t:.1f}s")
+    return os.path.join(REPO_TARGET, "debug"), ""
 
 
 # ---------------------------------------------------------------- known findings
